@@ -24,7 +24,9 @@ SHAPES = {
     'surr':   ['\\uD800', 'a\\uDFFFb', '\\U0000DC80'],
     'abs':    ['/a', '/', '//x', '/etc/passwd'],
     'escabs': ['\\x2Fetc/passwd', '\\u002Fa', '\\U0000002Fa', '\\x2f'],
-    'badesc': ['a\\b', 'tes\\', 'a\\x2', 'a\\xZZ', 'a\\u12', 'a\\U0001F60', 'a\\X41', '\\', 'a\\x', 'a\\u12G4'],
+    'badesc': ['a\\b', 'tes\\', 'a\\x2', 'a\\xZZ', 'a\\u12', 'a\\U0001F60', 'a\\X41', '\\', 'a\\x', 'a\\u12G4',
+               # hex digits are ASCII: other decimal digits (Arabic-Indic, fullwidth, Devanagari) make no escape
+               '\\x\u06641', 'a\\x4\uff11', '\\u00\u0664\u0661', '\\U0000004\u0967', 'b\\x\uff14\uff11c'],
     'range':  ['\\U00110000', '\\UFFFFFFFF', 'a\\U7FFFFFFFb', '\\U00200000'],
 }
 SHAPE_NAMES = list(SHAPES)
